@@ -132,6 +132,8 @@ def add_parent_to_namedexpr(node):
     assert isinstance(node, ast.NamedExpr)
 
     add_parent(node.target, namespace=namedexpr_namespace(node.namespace))
+    # The target is bound in the enclosing function namespace, but it is referenced from the namespace (comprehension) the expression is in
+    node.target.reference_namespace = node.namespace
     add_parent(node.value, namespace=node.namespace)
 
 def add_parent(node, namespace=None):
